@@ -5,6 +5,7 @@ import (
 	"go/ast"
 	"go/token"
 	"go/types"
+	"math"
 	"regexp"
 	"sort"
 	"strings"
@@ -25,10 +26,13 @@ func checkC17(c *Ctx, r *Report) {
 	checkRotate(c, r)
 	checkInvert(c, r)
 	checkLuma(c, r)
+	checkImageRead(c, r)
+	checkYUVMirror(c, r)
 	checkBinarizerConstants(c, r)
 	checkHybridGuard(c, r)
 	checkPixelMaps(c, r)
 	checkThresholds(c, r)
+	checkBlackPointBilevel(c, r)
 	checkSharpen(c, r)
 	checkMatrixCache(c, r)
 	checkRowAlias(c, r)
@@ -155,11 +159,15 @@ func guardFires(c *Ctx, fd *ast.FuncDecl, p *packages.Package, env map[types.Obj
 }
 
 func checkCropGuards(c *Ctx, r *Report) {
-	r.Rule("S-CROP", "every crop entry (RGBLuminanceSource.Crop, PlanarYUVLuminanceSource.Crop, NewPlanarYUVLuminanceSource) returns an error, before constructing anything, exactly when the rectangle has a negative origin, a negative width or height (which would let an origin beyond the data through the extent test and crash later) or its absolute extent (the receiver's own left/top offset included) leaves the underlying data: the guards, followed through tail delegation, are folded over a grid of receiver offsets and rectangles", 3)
-	lefts := []int64{-3, -1, 0, 1, 3, 7, 8, 20}
-	tops := []int64{-2, -1, 0, 1, 2, 6, 7}
-	widths := []int64{-15, -1, 1, 2, 5, 7, 8, 10}
-	heights := []int64{-6, -1, 1, 2, 5, 6, 7, 8}
+	r.Rule("S-CROP", "every crop entry (RGBLuminanceSource.Crop, PlanarYUVLuminanceSource.Crop, NewPlanarYUVLuminanceSource) returns an error, before constructing anything, exactly when the rectangle has a negative origin, a negative width or height (which would let an origin beyond the data through the extent test and crash later) or its absolute extent (the receiver's own left/top offset included) leaves the underlying data: the guards, followed through tail delegation, are folded over a grid of receiver offsets and rectangles that includes origins and sizes next to the largest integer (where origin + size wraps round)", 3)
+	const big = int64(math.MaxInt64)
+	lefts := []int64{-3, -1, 0, 1, 3, 7, 8, 20, big}
+	tops := []int64{-2, -1, 0, 1, 2, 6, 7, big - 1}
+	widths := []int64{-15, -1, 1, 2, 5, 7, 8, 10, big, big - 4}
+	heights := []int64{-6, -1, 1, 2, 5, 6, 7, 8, big}
+	// the rectangle (origin o, size n, both non-negative) leaves data of size d seen through a view at offset off:
+	// decided without forming o + n, which wraps round for sizes near the largest integer
+	leaves := func(off, o, n, d int64) bool { return o > d-off || n > d-off-o }
 	views := []viewFields{{0, 0, 10, 8}, {2, 1, 10, 8}, {5, 4, 10, 8}}
 	for _, t := range []string{"RGBLuminanceSource.Crop", "PlanarYUVLuminanceSource.Crop"} {
 		key := "gozxing." + t
@@ -189,7 +197,7 @@ func checkCropGuards(c *Ctx, r *Report) {
 								bad = "?" + err
 								break grid
 							}
-							invalid := l < 0 || tp < 0 || w < 0 || h < 0 || v.left+l+w > v.dataWidth || v.top+tp+h > v.dataHeight
+							invalid := l < 0 || tp < 0 || w < 0 || h < 0 || leaves(v.left, l, w, v.dataWidth) || leaves(v.top, tp, h, v.dataHeight)
 							if fired != invalid {
 								bad = fmt.Sprintf("view at offset (%d,%d) of %dx%d data, Crop(%d,%d,%d,%d): rejected=%v but the rectangle is %s", v.left, v.top, v.dataWidth, v.dataHeight, l, tp, w, h, fired, map[bool]string{true: "outside the data, has a negative origin or a negative size", false: "inside the data"}[invalid])
 								break grid
@@ -231,7 +239,7 @@ grid2:
 						bad = "?" + err
 						break grid2
 					}
-					invalid := l < 0 || tp < 0 || w < 0 || h < 0 || l+w > 10 || tp+h > 8
+					invalid := l < 0 || tp < 0 || w < 0 || h < 0 || leaves(0, l, w, 10) || leaves(0, tp, h, 8)
 					if fired != invalid {
 						bad = fmt.Sprintf("10x8 data, rectangle (%d,%d,%d,%d): rejected=%v, contract says %v", l, tp, w, h, fired, invalid)
 						break grid2
